@@ -8,14 +8,13 @@ use kmer::verif_shim::HashMap;
 #[cfg(not(kani))]
 use std::collections::HashMap;
 
-pub fn c14_cov_safety<const K: usize, const N: usize, const E: usize>() {
+pub fn c14_cov_safety<const K: usize, const N: usize, const E: usize, const BINS: usize, const MAXBIN: usize>() {
     let seq: [u8; N] = any_seq::<N>();
     let len = any_usize();
     assume(len <= N);
     let bin_size = any_usize();
-    assume(bin_size >= 1);
-    let bin_count = any_usize();
-    assume(bin_count >= 1 && bin_count <= 4);
+    assume(bin_size >= 1 && bin_size <= MAXBIN);
+    let bin_count = BINS;
     let norm = any_bool();
     let mut counts: HashMap<u64, u32> = HashMap::new();
     let mut e = 0;
